@@ -58,7 +58,7 @@ def decode_node(p):
 
 
 def strategy():
-    node = st.integers(0, 8 * len(NAMES) * 6 - 1).map(decode_node)
+    node = worldops.packed(8 * len(NAMES) * 6).map(decode_node)
     # amp: 0, or the number of further handles the root level gets (wide levels, one of the names layered)
     return st.fixed_dictionaries({'nodes': st.lists(node, min_size=1, max_size=20),
                                   'amp': worldops.size_amp(none=40, sizes=(40, 64, 65, 66, 130, 260))})
